@@ -252,11 +252,15 @@ def random_mm(rng: Any, seed_kind: Optional[str] = None, with_methods: bool = Tr
     mm = {"types": types, "consts": consts, "funcs": funcs, "seeded": kind}
 
     def fix_abstract() -> None:
-        # an abstract class without a concrete descendant crashes several generators (not our property)
+        # an abstract class without a concrete descendant, and a class without any property, crash several
+        # generators (not our property)
         fl = flags_of(mm)
         for t in classes:
             if t.get("abstract") and not fl["has_desc"][t["name"]]:
                 t["abstract"] = False
+        for t in classes:
+            if not c21_mm.all_props(mm, t):
+                t["props"].append(["only_prop", "int"])
 
     def member_names(c: Dict[str, Any]) -> set:
         return set(c21_mm.all_props(mm, c)) | set(c21_mm.all_methods(mm, c))
@@ -416,11 +420,13 @@ def enumerated_mms() -> List[Dict[str, Any]]:
         mm([enum("Color", ["Red_1", "Red1"]), cls("Something", ["x"])]),
         mm([enum("Color", ["Red"]), enum("COLOR", ["Red"]), cls("Something", ["x"])]),
         mm([enum("Some_thing", ["Red"]), cls("Something", ["x"]), cls("SomeThing", ["y"])]),
+        mm([enum("Kind_a", ["Red"]), cls("Kind_A", ["x"])]),
+        mm([enum("Kind_a", ["Red"]), enum("Kind_A", ["Green"]), cls("Something", ["x"])]),
         mm([cls("Some_URL", ["x"]), cls("Some_Url", ["y"])]),
         mm([cls("Some_URL", ["x"], abstract=True), cls("Some_Url", ["y"], abstract=True), cls("Leaf", ["z"], parent="Some_URL"), cls("Leaf_two", ["z"], parent="Some_Url")]),
         mm([cls("Something", ["x"]), cls("I_something", ["y"])]),
         mm([cls("Something", ["x"]), enum("Isomething", ["A"])]),
-        mm([cls("Something", ["x"], abstract=True), cls("ISomething", ["y"], abstract=True), cls("A", [], parent="Something"), cls("B", [], parent="ISomething")]),
+        mm([cls("Something", ["x"], abstract=True), cls("ISomething", ["y"], abstract=True), cls("A", ["a"], parent="Something"), cls("B", ["b"], parent="ISomething")]),
         mm([enum("Color_kind", ["Red"]), enum("Color", ["Kind_red"]), cls("Something", ["x"])]),
         mm([enum("Color", ["Red"]), cls("Color_red", ["x"])]),
         mm(base, ["Some_const", "Some_Const"]),
@@ -430,7 +436,7 @@ def enumerated_mms() -> List[Dict[str, Any]]:
         mm([cls("Model_type", ["x"])]),
         mm([enum("Model_type", ["A"]), cls("Something", ["x"])]),
         mm([cls("Base", ["x"], abstract=True), cls("Leaf", ["y"], parent="Base"), cls("Base_abstract", ["z"])]),
-        mm([enum("Color", ["Red"]), cls("COLOR", [])]) | {"types": [enum("Color", ["Red"]), {"kind": "class", "name": "COLOR", "abstract": False, "parent": None, "props": [["c", "Color"]], "methods": []}]},
+        mm([enum("Color", ["Red"]), cls("COLOR", ["x"])]) | {"types": [enum("Color", ["Red"]), {"kind": "class", "name": "COLOR", "abstract": False, "parent": None, "props": [["c", "Color"]], "methods": []}]},
         mm([{"kind": "cprim", "name": "Non_empty"}, cls("Non_Empty", ["x"])]),
         mm([cls("something", ["x"])]),
         mm([cls("Something", ["type", "Type"])]),
@@ -832,7 +838,7 @@ def run_conv(ctx: Ctx) -> None:
     n_corpus = len(idents)
     idents += enumerated_identifiers()
     n_enum = len(idents)
-    for _ in range(ctx.n(150, 6000)):
+    for _ in range(ctx.n(150, 2000)):
         s = random_identifier(ctx.rng, ctx.rng.random() < 0.4)
         idents.append(s if ctx.rng.random() < 0.5 else near_variant(ctx.rng, s))
     lines = []
@@ -926,7 +932,7 @@ def correspond(ctx: Ctx) -> None:
     ctx.extra_cov["rule"] = (
         "conv: (function, identifier) pairs — all 1–3-part identifiers over 10 part shapes (case/digit/empty) x every "
         "naming function + seeded random near-collisions; non-trivial = identifier has an underscore or an upper-case letter. "
-        "verify: meta-models (corpus + 34 hand-made, one per scope kind + seeded random with a near-collision planted in a "
+        "verify: meta-models (corpus + 36 hand-made, one per scope kind + seeded random with a near-collision planted in a "
         "chosen scope kind) x 8 targets; non-trivial = more than one type; distinct by value"
     )
     _run(ctx, True)
